@@ -3,61 +3,16 @@ package c01
 
 import (
 	"fmt"
-	"math/rand"
 	"reflect"
 	"testing"
 
 	"verif/internal/eqv"
-	"verif/internal/gen"
-	"verif/internal/gentypes"
+	"verif/internal/corpus"
 	"verif/internal/h"
 	"verif/internal/iox"
 )
 
-func ifaceExtra() []interface{} {
-	one := 1
-	n2 := &gentypes.Node{V: 2}
-	n1 := &gentypes.Node{V: 1, Next: n2}
-	return []interface{}{
-		&gentypes.One{A: 5}, gentypes.One{A: 6}, &gentypes.OnePtr{P: &one}, gentypes.OnePtr{P: &one}, gentypes.OneMap{M: map[string]int{"k": 1}},
-		&gentypes.Scalars{B: true, I: -1, I8: -8, U64: 1 << 63, F32: 0.1, F64: 1e100, S: "s"}, gentypes.Scalars{S: "value"},
-		n1, &gentypes.Tagged{X: 1, Y: "y", Z: 0, W: true, Upper: "U", Unicode: "名"}, &gentypes.Embeds{Inner: gentypes.Inner{IA: 1, IB: "b"}, InnerP: &gentypes.InnerP{PA: 2.5}, Name: "n"},
-		&gentypes.Empty{}, gentypes.Empty{},
-		[]*gentypes.One{{A: 1}, nil, {A: 2}}, []gentypes.One{{A: 1}}, map[string]*gentypes.One{"a": {A: 1}},
-		gentypes.MyInt(5), gentypes.MyString("named"), gentypes.MyFloat32(1.5), gentypes.MyBytes("nb"), gentypes.MyIntSlice{1, 2}, gentypes.MyStrMap{"k": 2},
-	}
-}
-
-type universeEntry struct {
-	gen.Labeled
-	block string
-	max   int
-}
-
-func universe(r *h.Run) []universeEntry {
-	var out []universeEntry
-	for _, l := range gen.Leaves() {
-		out = append(out, universeEntry{gen.Labeled{T: l, Label: l.String()}, "leaf", 0})
-	}
-	for _, l := range gen.Depth1() {
-		out = append(out, universeEntry{l, "depth1", 48})
-	}
-	for _, l := range gen.MapCells() {
-		out = append(out, universeEntry{l, "mapcell", 40})
-	}
-	for _, l := range gen.Depth2() {
-		out = append(out, universeEntry{l, "depth2", r.Pick(10, 24)})
-	}
-	rng := rand.New(rand.NewSource(r.Seed*7919 + 13))
-	n := r.Pick(1500, 30000)
-	depth := r.Pick(5, 7)
-	for i := 0; i < n; i++ {
-		l := gen.RandomType(rng, depth)
-		l.Label = fmt.Sprintf("rnd%d:%s", i, l.Label)
-		out = append(out, universeEntry{l, "random", 8})
-	}
-	return out
-}
+type universeEntry = corpus.Entry
 
 func clipv(v reflect.Value) string {
 	s := fmt.Sprintf("%#v", v.Interface())
@@ -85,17 +40,12 @@ func TestCheck(t *testing.T) {
 		"map keys never contain NaN, pointers or nil; list.List only behind a pointer",
 		"under a Long/Real setting that cannot represent a number held in an interface{} position the case is counted as undetermined, not checked",
 	})
-	extra := ifaceExtra()
-	for _, ue := range universe(r) {
+	for _, ue := range corpus.Universe(r.Seed, r.Pick(10, 24), r.Pick(1500, 30000), r.Pick(5, 7)) {
 		ue := ue
 		r.Case(ue.Label, func(c *h.Case) {
-			g := &gen.Gen{Rng: c.Rand(), IfaceExtra: extra}
-			if ue.block == "leaf" || ue.block == "depth1" {
-				g.AllTimes = true
-			}
-			vals := g.Values(ue.T, ue.max)
+			vals := corpus.Values(ue, c.Rand())
 			hasIface := iox.ContainsInterface(ue.T)
-			r.SetAdd("blocks", ue.block)
+			r.SetAdd("blocks", ue.Block)
 			for j, v := range vals {
 				j, v := j, v
 				c.Sub(int64(j), func() { roundTrips(c, ue, j, v, hasIface) })
@@ -163,7 +113,7 @@ func encodeOne(c *h.Case, ue universeEntry, j int, v reflect.Value, simple bool,
 		return nil, false
 	}
 	if err != nil {
-		c.Violation("encode-error:"+culprit(ue.T, v), fmt.Sprintf("encoding returned error %v for value %s", err, clipv(v)), rep)
+		c.Violation("encode-error:"+h.PanicClass(err.Error()), fmt.Sprintf("encoding returned error %v for value %s", err, clipv(v)), rep)
 		return nil, false
 	}
 	return data, true
@@ -215,7 +165,7 @@ func decodeOne(c *h.Case, ue universeEntry, j int, v reflect.Value, data []byte,
 // culprit names the smallest sub-value that fails on its own (one level of shrinking per
 // container kind), so that signatures are stable across seeds and container shapes.
 func culprit(t reflect.Type, v reflect.Value) string {
-	for depth := 0; depth < 8; depth++ {
+	for depth := 0; depth < 40; depth++ {
 		sub, ok := failingChild(v)
 		if !ok {
 			break
